@@ -112,7 +112,7 @@ VDstr(r) ==
 VDparse(r) ==
   LET e == DurEval(r.text)  o == Obs(r.res) IN
   IF ~e.ok THEN OkIf(o.k = "reject")
-  ELSE IF ~e.exact THEN (IF o.k = "duration" THEN "inexact-text" ELSE "bad")
+  ELSE IF ~e.exact THEN "inexact-text"          \* a term is not a whole number of ns: rounding is not specified
   ELSE IF InI64(e.n) THEN OkIf(IsExact(o, "duration", e.n))
   ELSE IF o.k = "reject" THEN "ovf-reject" ELSE "bad"
 
